@@ -203,12 +203,12 @@ def rule_dedup(ctx: Ctx):
     c02.rule_once(ctx, rule="C12.dedup")
 
 
-def rule_own(ctx: Ctx):
+def rule_own(ctx: Ctx, rule: str = "C12.own"):
     rep = ctx.rep
     sm = ctx.p.cls("StateMachine")
     per_instance = {"_callbacks": "CallbacksRegistry()", "_states_for_instance": "{}", "_listeners": "{}"}
     for nm in per_instance:
-        rep.check(nm not in sm.class_assigns, "C12.own", f"{sm.module.rel}:{sm.node.lineno} StateMachine",
+        rep.check(nm not in sm.class_assigns, rule, f"{sm.module.rel}:{sm.node.lineno} StateMachine",
                   f"`{nm}` is not a class-level object shared by all instances", f"{sm.module.rel}::StateMachine",
                   f"{nm} = {show(sm.class_assigns.get(nm))}")
     for mname in ("__init__", "__setstate__"):
@@ -226,20 +226,20 @@ def rule_own(ctx: Ctx):
                     order.append((e.idx, "REGISTER"))
             break
         for nm, want in per_instance.items():
-            rep.check(got.get(nm) == want, "C12.own", fn.loc(), f"{mname} gives the instance its own fresh `{nm}`", fn.key, f"self.{nm} = {got.get(nm)}")
+            rep.check(got.get(nm) == want, rule, fn.loc(), f"{mname} gives the instance its own fresh `{nm}`", fn.key, f"self.{nm} = {got.get(nm)}")
         first_reg = min([i for i, a in order if a == "REGISTER"], default=None)
-        rep.check(first_reg is not None and all(i < first_reg for i, a in order if a != "REGISTER"), "C12.own", fn.loc(),
+        rep.check(first_reg is not None and all(i < first_reg for i, a in order if a != "REGISTER"), rule, fn.loc(),
                   f"{mname} creates the per-instance containers before any provider is attached", fn.key, f"order: {[a for _, a in sorted(order)]}")
     ri = ctx.fn("CallbacksRegistry.__init__")
     got = {show(t): show(n.value) for n in own_nodes(ri.node) if isinstance(n, (ast.Assign, ast.AnnAssign)) for t in (n.targets if isinstance(n, ast.Assign) else [n.target])}
-    rep.check(got.get("self._registry") == "defaultdict(CallbacksExecutor)", "C12.own", ri.loc(), "a registry owns a fresh executor table", ri.key, str(got))
+    rep.check(got.get("self._registry") == "defaultdict(CallbacksExecutor)", rule, ri.loc(), "a registry owns a fresh executor table", ri.key, str(got))
     ei = ctx.fn("CallbacksExecutor.__init__")
     got = {show(t): show(n.value) for n in own_nodes(ei.node) if isinstance(n, (ast.Assign, ast.AnnAssign)) for t in (n.targets if isinstance(n, ast.Assign) else [n.target])}
-    rep.check(got.get("self.items") in ("deque()", "[]") and got.get("self.items_already_seen") == "set()", "C12.own", ei.loc(),
+    rep.check(got.get("self.items") in ("deque()", "[]") and got.get("self.items_already_seen") == "set()", rule, ei.loc(),
               "an executor owns fresh item and seen containers", ei.key, str(got))
     for c in (ctx.p.cls("CallbacksRegistry"), ctx.p.cls("CallbacksExecutor")):
         muts = [k for k, v in c.class_assigns.items() if isinstance(v, (ast.Dict, ast.List, ast.Set, ast.Call))]
-        rep.check(not muts, "C12.own", f"{c.module.rel}:{c.node.lineno} {c.name}", f"{c.name} has no class-level mutable container", f"{c.module.rel}::{c.name}", str(muts))
+        rep.check(not muts, rule, f"{c.module.rel}:{c.node.lineno} {c.name}", f"{c.name} has no class-level mutable container", f"{c.module.rel}::{c.name}", str(muts))
 
 
 def _sm_inline(callee: FuncInfo, depth: int, node) -> bool:
@@ -267,6 +267,10 @@ def rule_engine(ctx: Ctx, rule: str = "C12.engine", only=None):
                 todo.append(c)
     tops = [f for f in entry if not [c for c, _, _ in g.callers(f) if c.cls is not None and c.cls.name == "StateMachine"] or f.name in ("add_listener",)]
     rep.floor(rule, "entry points that can add wrappers", len(tops), 3)
+    if only is None:
+        from .c05 import check_engine_choice
+
+        check_engine_choice(ctx, rule)
     for fn in sorted(tops, key=lambda f: f.key):
         if fn.name == "add_observer" or (only is not None and fn.name not in only):
             continue
